@@ -19,18 +19,21 @@ Proof. exact bind_equiv. Qed.
 
 (* The text StreamFlow gives the shell is the reference text: any number of arguments and inputs, any positions
    (ties, negatives), any values.  [tool_ok]: non-empty prefixes/separators, input names sorting after argument
-   indexes, and ARRAY inputs writing shellQuote (without it the statement is false: C30_argv_array_refuted). *)
-Theorem C30_line_equiv : forall t j, tool_ok t -> sf_line t j = spec_line t j.
+   indexes, and no ARRAY input bound without valueFrom/itemSeparator says shellQuote:false under
+   ShellCommandRequirement (cwltool quotes such items regardless: C30_array_quote_false_refuted).
+   [job_typed]: an input not declared as an array does not hold one. *)
+Theorem C30_line_equiv : forall t j, tool_ok t -> job_typed t j -> sf_line t j = spec_line t j.
 Proof. exact line_equiv. Qed.
 
 (* sf_argv = spec_argv: when every binding is quoted, a POSIX shell gives the tool exactly the reference argv. *)
-Theorem C30_argv_equiv : forall t j, tool_ok t -> quotes_all t -> sf_argv t j = Some (spec_argv t j).
+Theorem C30_argv_equiv : forall t j,
+  tool_ok t -> job_typed t j -> quotes_all t -> sf_argv t j = Some (spec_argv t j).
 Proof. exact argv_equiv. Qed.
 
 (* ... which is always the case without ShellCommandRequirement *)
 Theorem C30_argv_equiv_noshell : forall t j,
-  tool_ok t -> t_shell t = false -> sf_argv t j = Some (spec_argv t j).
-Proof. intros t j H S. apply argv_equiv; [exact H|apply nonshell_quotes_all; exact S]. Qed.
+  tool_ok t -> job_typed t j -> t_shell t = false -> sf_argv t j = Some (spec_argv t j).
+Proof. intros t j H T S. apply argv_equiv; [exact H|exact T|apply nonshell_quotes_all; exact S]. Qed.
 
 (* C30_quote: with ShellCommandRequirement, pieces with shellQuote true reach the tool verbatim, whatever they
    contain (blanks, quotes, $, `, ;, newlines, the empty string) *)
@@ -48,18 +51,31 @@ Theorem C30_env_redirections : forall args e w i o er,
                         (app (map W args) (app (stdin_toks i) (app (stdout_toks o) (stderr_toks o er)))))).
 Proof. intros. apply create_command_tokens; auto. apply cmd_ok_quoted. assumption. Qed.
 
-(* The property text is FALSE of the faithful model for an array input whose binding does not write shellQuote
-   ("By default, do not escape composite command tokens"): one string[] input c = ["a;echo b"] with prefix "$P".
-   The reference argv is ["$P"; "a;echo b"]; StreamFlow's line is  $P a;echo b  (nothing quoted). *)
+(* CWLCommand.execute's stream defaults (after the fix of finding 4): the tool's stdout / stderr are on a file exactly
+   when the tool declares `stdout` / `stderr`, and on that file; an undeclared stderr no longer follows stdout. *)
+Theorem C30_stream_targets : forall so se, sf_stdout_target so se = so /\ sf_stderr_target so se = se.
+Proof. intros. split; [apply stdout_target_spec|apply stderr_target_spec]. Qed.
+Theorem C30_stderr_unset_not_redirected : forall f, let (o, e) := sf_streams (Some f) None in stderr_str o e = "".
+Proof. exact stderr_unset_file. Qed.
+
+(* The witness that refuted the property before the fix of finding 1 (an array input whose binding does not write
+   shellQuote: c = ["a;echo b"], prefix "$P"; the line used to be  tool $P a;echo b ) now agrees. *)
 Definition refute_tool : tool :=
   mkT false ["tool"] [] [mkI "c" true (Some (mkB 1 (Some "$P") false None None VfNone))].
 Definition refute_job : job := [("c", Arr [VStr "a;echo b"])].
-Theorem C30_argv_array_refuted :
-  exists t j, spec_argv t j = ["tool"; "$P"; "a;echo b"] /\ sf_line t j = "tool $P a;echo b" /\
-              sf_line t j <> spec_line t j /\ sf_argv t j <> Some (spec_argv t j).
-Proof.
-  exists refute_tool, refute_job. vm_compute. repeat split; discriminate.
-Qed.
+Example C30_array_default_quoted :
+  sf_line refute_tool refute_job = "tool '$P' 'a;echo b'" /\
+  sf_argv refute_tool refute_job = Some ["tool"; "$P"; "a;echo b"] /\ spec_argv refute_tool refute_job = ["tool"; "$P"; "a;echo b"].
+Proof. vm_compute. repeat split; reflexivity. Qed.
+
+(* Outside [tool_ok]: ShellCommandRequirement and shellQuote: false on the binding of an array (no valueFrom, no
+   itemSeparator).  The reference still quotes the items, StreamFlow does not: the lines differ (known finding). *)
+Definition qf_tool : tool :=
+  mkT true ["tool"] [] [mkI "z" true (Some (mkB 0 (Some "-z") true None (Some false) VfNone))].
+Definition qf_job : job := [("z", Arr [VStr "= say hi"])].
+Theorem C30_array_quote_false_refuted :
+  exists t j, job_typed t j /\ spec_line t j = "tool -z '= say hi'" /\ sf_line t j = "tool -z = say hi".
+Proof. exists qf_tool, qf_job. split; [repeat constructor; discriminate|]. vm_compute. split; reflexivity. Qed.
 
 (* non-vacuity *)
 Definition ex_tool : tool :=
@@ -69,11 +85,12 @@ Definition ex_tool : tool :=
        mkI "l" true (Some (mkB (-1) (Some "-'q") true (Some "' '") (Some true) VfNone));
        mkI "n" false (Some (mkB 1 None true None None VfNone))].
 Definition ex_job : job := [("s", Sc (VStr "x'y $HOME")); ("l", Arr [VStr "it's"; VStr ""; VInt (-3)]); ("n", Sc VNull)].
-Example C30_ex_ok : tool_ok ex_tool /\ quotes_all ex_tool.
+Example C30_ex_ok : tool_ok ex_tool /\ quotes_all ex_tool /\ job_typed ex_tool ex_job.
 Proof.
-  split.
-  - split; repeat constructor; try discriminate; try (apply name_ok_head; reflexivity).
+  split; [|split].
+  - split; repeat constructor; try discriminate; try (apply name_ok_head; reflexivity); try (intros; reflexivity).
   - intros b Hb. vm_compute in Hb. repeat (destruct Hb as [<-|Hb]; [reflexivity|]). destruct Hb.
+  - repeat constructor; intros H l; try discriminate; vm_compute; discriminate.
 Qed.
 Example C30_ex_argv :
   sf_argv ex_tool ex_job
@@ -90,4 +107,6 @@ Print Assumptions C30_argv_equiv.
 Print Assumptions C30_argv_equiv_noshell.
 Print Assumptions C30_quote.
 Print Assumptions C30_env_redirections.
-Print Assumptions C30_argv_array_refuted.
+Print Assumptions C30_array_quote_false_refuted.
+Print Assumptions C30_stream_targets.
+Print Assumptions C30_stderr_unset_not_redirected.
